@@ -2,7 +2,8 @@
    nextflow/scripts/batchie.py regenerated from /repo on every run (Generated/SrcOrchestrate.v, by harness/py2gal.py
    with the configurations C19_* of harness/src_functions.py), for all inputs. *)
 From Coq Require Import ZArith List Bool Lia.
-From Batchie Require Import Lib.Sexp Lib.PyRt Model.Orchestrate Generated.SrcOrchestrate Proofs.C19Base Proofs.C19Main.
+From Batchie Require Import Lib.Sexp Lib.PyRt Model.Orchestrate Generated.SrcOrchCmd Proofs.C19SourceCmd Generated.SrcOrchestrate
+  Proofs.C19Base Proofs.C19Main.
 Import ListNotations.
 Open Scope Z_scope.
 
@@ -264,12 +265,19 @@ Qed.
 Lemma get_selected_list f i : match get_selected f i with Some l => l | None => [] end = selected_plates f i.
 Proof. unfold get_selected. destruct (selected_plates f i); reflexivity. Qed.
 
+(* the launch a call makes is the one the TRANSLATED command builder's command line denotes (Proofs/C19SourceCmd.v) *)
+Local Ltac builders :=
+  rewrite ?src_run_initial_plate_is_model, ?src_run_first_batch_plate_is_model,
+    ?src_run_first_prospective_batch_plate_is_model, ?src_run_subsequent_batch_plate_is_model.
+
 (* the part of both functions after the directory has been cleared and re-created, for a step that is not (i, 0):
-   get_theta_and_dist_chunks on plate_0 of the iteration, then run_subsequent_batch_plate *)
-Lemma next_step_tail f i j scr :
+   get_theta_and_dist_chunks on plate_0 of the iteration, then the translated run_subsequent_batch_plate with the two glob
+   patterns of that directory *)
+Lemma next_step_tail f i j scr extra :
   (j =? 0) = false ->
   (dos r <- theta_chunks (tree_after f [ARmTree (i, j); AMkIter i; AMkPlate (i, j)]) [ARmTree (i, j); AMkIter i; AMkPlate (i, j)] (i, 0);
-   dos acts <- launch_cmd [ARmTree (i, j); AMkIter i; AMkPlate (i, j)] (i, j) (next_cmd scr r (get_selected f i));
+   dos acts <- src_run_subsequent_batch_plate [ARmTree (i, j); AMkIter i; AMkPlate (i, j)] (i, j) scr (TGlob r) (DGlob r) tt extra
+                 (get_selected f i);
    SOk acts)
   = if has_thetas_dist f (i, 0)
     then match scr with
@@ -283,6 +291,7 @@ Proof.
   pose proof (get_plate_after f (i, j) (i, 0) N) as H. cbn [fst] in H.
   unfold theta_chunks, has_thetas_dist. rewrite H.
   destruct (match get_plate f (i, 0) with Some d => f_thetas d && f_dist d | None => false end); cbn [sbind]; [|reflexivity].
+  builders.
   destruct scr as [sp|]; cbn [next_cmd launch_cmd sbind]; [|reflexivity].
   now rewrite get_selected_list.
 Qed.
@@ -301,19 +310,19 @@ Qed.
    the test of the metadata, once where there is no metadata) *)
 Local Ltac retro_tail f i j scr :=
   rewrite src_get_selected_is_model; cbn [sbind app fst];
-  destruct ((i =? 0) && (j =? 0)) eqn:E0; [reflexivity|];
+  destruct ((i =? 0) && (j =? 0)) eqn:E0; [builders; reflexivity|];
   pose proof (test_screen_after f i j E0) as Ht;
   destruct (j =? 0) eqn:Ej;
   [ rewrite src_get_test_screen_is_model; cbn [sbind];
     rewrite Ht; unfold test_screen_of;
-    destruct (has_training f (0, 0)); cbn [is_none]; [destruct scr|]; reflexivity
-  | rewrite src_get_thetas_is_model, (next_step_tail f i j scr Ej); unfold next_action;
+    destruct (has_training f (0, 0)); cbn [is_none]; [builders; destruct scr|]; reflexivity
+  | rewrite src_get_thetas_is_model, (next_step_tail f i j scr _ Ej); unfold next_action;
     destruct (has_thetas_dist f (i, 0)); [destruct scr|]; reflexivity ].
 
-Theorem src_run_next_retro_is_model : forall (f : fs) (bs : Z),
-  src_run_next_retrospective_step f SInput bs = result_of_plan Retro bs (plan_of Retro true bs f).
+Theorem src_run_next_retro_is_model : forall (f : fs) (extra : eargs) (bs : Z),
+  src_run_next_retrospective_step f SInput extra bs = result_of_plan Retro bs (plan_of Retro true bs f).
 Proof.
-  intros f bs. unfold src_run_next_retrospective_step, plan_of. cbn [tree_after fold_left].
+  intros f extra bs. unfold src_run_next_retrospective_step, plan_of. cbn [tree_after fold_left].
   rewrite src_examine_is_model.
   destruct (examine true bs f) as [[[[i j] meta] scr]|w s]; cbn [sres_of_xres sbind result_of_plan]; [|reflexivity].
   destruct meta as [m|]; cbn [is_some sunwrap sbind].
@@ -321,28 +330,28 @@ Proof.
   - retro_tail f i j scr.
 Qed.
 
-Theorem src_run_next_prosp_is_model : forall (f : fs) (bs : Z),
-  src_run_next_prospective_step f SInput bs = result_of_plan Prosp bs (plan_of Prosp true bs f).
+Theorem src_run_next_prosp_is_model : forall (f : fs) (extra : eargs) (bs : Z),
+  src_run_next_prospective_step f SInput extra bs = result_of_plan Prosp bs (plan_of Prosp true bs f).
 Proof.
-  intros f bs. unfold src_run_next_prospective_step, plan_of. cbn [tree_after fold_left].
+  intros f extra bs. unfold src_run_next_prospective_step, plan_of. cbn [tree_after fold_left].
   rewrite src_examine_is_model.
   destruct (examine true bs f) as [[[[i j] meta] scr]|w s]; cbn [sres_of_xres sbind result_of_plan]; [|reflexivity].
   rewrite src_get_selected_is_model. cbn [sbind app fst].
-  destruct (j =? 0) eqn:Ej; [reflexivity|].
-  rewrite src_get_thetas_is_model, (next_step_tail f i j (Some SInput) Ej). unfold next_action.
+  destruct (j =? 0) eqn:Ej; [builders; reflexivity|].
+  rewrite src_get_thetas_is_model, (next_step_tail f i j (Some SInput) _ Ej). unfold next_action.
   destruct (has_thetas_dist f (i, 0)); reflexivity.
 Qed.
 
 (* ---- the value a call hands back to main() ---- *)
-Definition src_run_next (md : mode) (f : fs) (bs : Z) : sres (bool * list action) :=
+Definition src_run_next (md : mode) (f : fs) (extra : eargs) (bs : Z) : sres (bool * list action) :=
   match md with
-  | Retro => src_run_next_retrospective_step f SInput bs
-  | Prosp => src_run_next_prospective_step f SInput bs
+  | Retro => src_run_next_retrospective_step f SInput extra bs
+  | Prosp => src_run_next_prospective_step f SInput extra bs
   end.
 
-Theorem src_run_next_is_model : forall md f bs,
-  src_run_next md f bs = result_of_plan md bs (plan_of md true bs f).
-Proof. intros [|] f bs; [apply src_run_next_retro_is_model | apply src_run_next_prosp_is_model]. Qed.
+Theorem src_run_next_is_model : forall md f extra bs,
+  src_run_next md f extra bs = result_of_plan md bs (plan_of md true bs f).
+Proof. intros [|] f extra bs; [apply src_run_next_retro_is_model | apply src_run_next_prosp_is_model]. Qed.
 
 Lemma plan_acts_shape md fixed bs f acts :
   plan_of md fixed bs f = PActs acts -> exists a b c x, acts = [a; b; c; x].
@@ -358,11 +367,11 @@ Qed.
 
 (* whenever the model says a call returns b to main() (call_returns: it was not interrupted, the script did not raise,
    the pipeline's exit status was 0), b is the value the translated function returns *)
-Theorem call_returns_is_source : forall md bs n f e b,
+Theorem call_returns_is_source : forall md bs n f e extra b,
   call_returns md bs (snd (attempt md true bs n f e)) = Some b ->
-  exists acts, src_run_next md f bs = SOk (b, acts).
+  exists acts, src_run_next md f extra bs = SOk (b, acts).
 Proof.
-  intros md bs n f e b. rewrite src_run_next_is_model. unfold attempt.
+  intros md bs n f e extra b. rewrite src_run_next_is_model. unfold attempt.
   destruct (plan_of md true bs f) as [w s| |acts] eqn:Ep; cbn [snd call_returns result_of_plan].
   - discriminate.
   - intros H; injection H as <-. eexists; reflexivity.
